@@ -64,7 +64,8 @@ func (v *Verdict) Violate(sig, format string, a ...any) *Verdict {
 	v.Sig = sig
 	v.Detail = fmt.Sprintf(format, a...)
 	if len(v.Detail) > 6000 {
-		v.Detail = v.Detail[:6000] + "…"
+		// head and tail: what went wrong usually stands at the end, after the (possibly very long) input
+		v.Detail = v.Detail[:4000] + " …[" + fmt.Sprint(len(v.Detail)-6000) + " bytes]… " + v.Detail[len(v.Detail)-2000:]
 	}
 	return v
 }
